@@ -449,6 +449,7 @@ func parseKnown(s string) map[string]bool {
 
 type tally struct {
 	cases, free, knownHits int
+	abandoned              int
 	byClass                map[string]int
 	knownBy                map[string]int
 }
@@ -466,6 +467,7 @@ func replayProof(in string, nk int, knownList string) {
 			total.cases += t.cases
 			total.free += t.free
 			total.knownHits += t.knownHits
+			total.abandoned += t.abandoned
 			for k, v := range t.byClass {
 				total.byClass[k] += v
 			}
@@ -538,6 +540,7 @@ func replayProof(in string, nk int, knownList string) {
 	rep.Extra["cases"] = total.cases
 	rep.Extra["cases_unconstrained"] = total.free
 	rep.Extra["known_hits"] = total.knownBy
+	rep.Extra["abandoned"] = total.abandoned
 	rep.Extra["cases_by_class"] = total.byClass
 	rep.Print()
 }
@@ -581,8 +584,16 @@ func (w *proofWorld) prove(s hx.Step, si int, tl *tally, known map[string]bool, 
 		return false
 	}
 	if want, got := canon(s["shape"]), canon(proofShape(wt.proof, w.u)); want != got {
-		mism(si, s, "proof-structure", s["shape"], proofShape(wt.proof, w.u))
-		return false
+		// The real tree (or proof builder) is not the one the specification describes: that is
+		// C03's business (tree shape), not a statement of C05.  The site-indexed mutations of
+		// this query cannot be applied; what C05 does state is still checked: the honest answer
+		// must verify.
+		tl.abandoned++
+		if ok, why := verify(wt, c); !ok {
+			mism(si, s, "verdict:none", map[string]interface{}{"must_accept": true}, map[string]interface{}{"accepted": false, "error": why})
+			return false
+		}
+		return true
 	}
 	nbr := hx.Ints(s["nbr"])
 	cases, _ := s["cases"].([]interface{})
